@@ -630,6 +630,17 @@ BatchStateChecks(ln, w2) ==
                 /\ \A i \in DOMAIN E : EntOK(w2, E[i]) /\ EntValsOK(w2, E[i]) /\ EntTgtOK(w2, E[i])) >>
     ELSE <<>>
 
+(* C10: a call addressing a single entity (or none) that panics leaves every observable of the world as it was:   *)
+(* the ghost did not move, so the whole observation - entities, components, values, targets, the All() query,     *)
+(* counts, resources, lock state, the entity pool - has to be that of the ghost before the call.                  *)
+RejectedChecks(ln, w, w2) ==
+    IF ln.res.panic /\ w2 = w /\ ln.op \notin {"BatchExchange", "BatchSetRelation", "BatchRemove", "NewBatch", "NewWorld", "Load", "Fork", "TwinEq"}
+    THEN LET cs == ObsChecks(w, ln.obs) IN
+         << Chk("C10", "rejected-call-changes-nothing",
+                /\ \A i \in DOMAIN cs : cs[i][3]
+                /\ PoolOf(ln.obs.pool) = w.pool) >>
+    ELSE <<>>
+
 AllChecks(ln, w, r) ==
     IF r.skip THEN r.c
     ELSE r.c \o ObsChecks(r.g, ln.obs) \o PoolChecks(ln, w, r.g)
@@ -637,6 +648,7 @@ AllChecks(ln, w, r) ==
              \o (IF ln.op = "NewWorld" THEN <<>> ELSE EventChecks(w, r.g, ln.events, r.evs))
              \o RawChecks(ln)
              \o BatchStateChecks(ln, r.g)
+             \o RejectedChecks(ln, w, r.g)
 
 ---------------------------------------------------------------------------
 (* Layer-2 conformance: the hidden state logged by the hook (World.VerifShape) evolves exactly as     *)
